@@ -7,10 +7,10 @@ import rt
 
 PROPS = {
     "C01": {"profiles": ["struct-flat", "member-instrs", "shape-change"], "n_quick": 1800},
-    "C02": {"profiles": ["enum", "multi-counterpart", "shape-change"], "n_quick": 1800},
+    "C02": {"profiles": ["enum", "multi-counterpart", "shape-change", "enum-members"], "n_quick": 2000},
     "C03": {"profiles": ["tree", "parents"], "n_quick": 1800},
     "C04": {"profiles": ["traits", "generics"], "n_quick": 1500},
-    "C05": {"profiles": ["member-instrs", "multi-counterpart"], "n_quick": 1500},
+    "C05": {"profiles": ["member-instrs", "multi-counterpart", "enum-members"], "n_quick": 1800},
     "C06": {"profiles": ["multi-counterpart", "tree", "enum", "parents"], "n_quick": 2000},
     "C07": {"profiles": ["struct-flat", "tree", "enum", "shape-change"], "n_quick": 1800},
     "C08": {"profiles": ["trait-params", "tree", "trait-repeat"], "n_quick": 1800},
@@ -648,6 +648,56 @@ def oracle_c05(cases, seed, thorough):
         n += 1
         if a[i] != b[i]:
             fails.append({"source": s2, "what": "a member instruction that applies to no requested conversion changes the expansion", "detail": {"without": s}})
+    f2, n2 = oracle_c05_shadowed(seed, thorough)
+    return fails + f2, n + n2
+
+
+def oracle_c05_shadowed(seed, thorough):
+    """most-specific pick: next to a fallible member instruction, its infallible twin (same kinds, same dedication) is
+    shadowed in every fallible conversion; when no infallible conversion of those kinds is requested, adding the twin
+    must leave the expansion unchanged (struct members and enum variant payload members alike)"""
+    fails = []
+    r = random.Random(seed + 55)
+    items = []
+    for k, prof in enumerate(["member-instrs", "enum-members", "multi-counterpart", "shape-change"]):
+        items += gen.gen_items(prof, seed * 1000 + 360 + k, 300 if not thorough else 3000)
+    pairs = []
+    for it in items:
+        req = requested_kinds(it)
+        allreq = set().union(*req.values()) if req else set()
+        infall = {k for k, f in allreq if not f}
+        # kinds an infallible pass may consult (into_existing falls back on into)
+        consulted = set(infall)
+        if "owned_into_existing" in infall:
+            consulted.add("owned_into")
+        if "ref_into_existing" in infall:
+            consulted.add("ref_into")
+        members = list(it.fields) + [f for v in it.variants for f in v.fields]
+        cands = []
+        for f in members:
+            for a in f.attrs:
+                if a.tag and a.tag[0] == "mmap" and a.name in gen.UNTRY:
+                    ks, _ = gen.kinds_of(a.name)
+                    if not (set(ks) & consulted):
+                        cands.append((f, a))
+        if not cands:
+            continue
+        it2 = copy.deepcopy(it)
+        members2 = list(it2.fields) + [f for v in it2.variants for f in v.fields]
+        f, a = r.choice(cands)
+        f2 = members2[members.index(f)]
+        ded = (a.args.split("|", 1)[0] + "| ") if (a.args and a.tag[1]) else ""
+        f2.attrs.insert(r.randrange(len(f2.attrs) + 1), gen.Instr(gen.UNTRY[a.name], ded + r.choice(["zz_shadowed", "zz_shadowed, ~.clone()", "{ shadowed() }"]), tag=("mmap", a.tag[1])))
+        pairs.append((it.meta["id"], gen.render(it), gen.render(it2)))
+    a = expand("s1", [(i, s) for i, s, _ in pairs])
+    b = expand("s1", [(i, s2) for i, _, s2 in pairs])
+    n = 0
+    for i, s, s2 in pairs:
+        if a[i][0] != "OK":
+            continue
+        n += 1
+        if a[i] != b[i]:
+            fails.append({"source": s2, "what": "an infallible member instruction shadowed by its fallible twin changes the fallible expansion", "detail": {"without": s}})
     return fails, n
 
 
@@ -733,8 +783,12 @@ def inject_fault(it, kind, r):
         c = "Zq4"
         it2.attrs = [a for a in it2.attrs if a.name != "child_parents"]
         it2.attrs.insert(r.randrange(len(it2.attrs) + 1), gen.Instr("owned_into", c, tag=("trait", c)))
-        f = r.choice(it2.fields)
-        f.attrs = [a for a in f.attrs if a.name not in ("child", "parent") and not a.name.startswith("ghost")]
+        # never touch a member's ghost instructions: another injected fault (`ghost-no-default`) may live there
+        cands = [f for f in it2.fields if not any(a.name.startswith("ghost") for a in f.attrs)]
+        if not cands:
+            return None
+        f = r.choice(cands)
+        f.attrs = [a for a in f.attrs if a.name not in ("child", "parent")]
         f.attrs.insert(r.randrange(len(f.attrs) + 1), gen.Instr("child", "zq_base"))
     return it2
 
@@ -860,7 +914,7 @@ RT_FAMILY = {"C01": "flat", "C07": "flat", "C08": "flat", "C02": "enum", "C03": 
 
 def oracle_rt(prop, seed, thorough):
     fam = RT_FAMILY[prop]
-    fails, nmods, ntests, known = rt.campaign(fam, seed * 100 + int(prop[1:]), 25 if not thorough else 250)
+    fails, nmods, ntests, known = rt.campaign(fam, seed * 100 + int(prop[1:]), 80 if not thorough else 400)
     return fails, nmods, ntests, len(known)
 
 
